@@ -6,7 +6,7 @@ VERUS_TECH = 'contract-based deductive verification (Verus/Z3) of functions extr
 
 PROPERTIES = {
     'C01': dict(
-        level='proof', verus=['rlabels', 'rbranch', 'rscan', 'rpool'], kani=['flags'],
+        level='proof', verus=['rlabels', 'rbranch', 'rscan', 'rpool', 'rdecode'], kani=['flags'],
         technique=VERUS_TECH,
         claim='Unbounded proof, for the functions under contract only: the reader offset->Label table (bounds checks, exact lookup, frame, injectivity invariant), '
               'branch-target arithmetic (i16/i32 offsets, u16 range check), switch padding and the primitive big-endian readers satisfy postconditions taken from the property statement. '
@@ -23,7 +23,7 @@ PROPERTIES = {
         note='Trusted: Verus+Z3; extraction rewrites; Vec<u8> sink model (write_all appends, never fails); to_be_bytes stubs; obeys_key_model::<Label>(); ordered LabelRange precondition.',
         out=['write_code retry loop and instruction match (closure)', 'duke/src/simple_class_writer/pool.rs PoolWrite::put (HashMap::entry)', 'attribute emitters']),
     'C04': dict(
-        level='proof', verus=['adiff'], kani=['names', 'diff'],
+        level='proof', verus=['adiff'], kani=['names', 'diff'], enum=['maps'],
         technique=VERUS_TECH,
         claim='Unbounded proof, for the functions under contract only: apply_diff_option equals the spec table of the property (None keeps, Add only onto absent, Remove/Edit only when the stated old value matches, every other combination refused), '
               'Action::{from_tuple,to_tuple,flip,is_diff} equal their algebraic specs, and the lemmas from_tuple/to_tuple isomorphism, flip involution and apply(diff(a,b),a)=b hold for all values of all types. '
@@ -31,7 +31,7 @@ PROPERTIES = {
         note='Trusted: Verus+Z3; extraction rewrites (Debug bound removed, error text dropped); T::obeys_eq_spec() (PartialEq::eq agrees with its spec) and cloned(b,x) as the meaning of Clone.',
         out=['quill/src/action/apply_diff.rs apply_diff_map and callers (IndexMap)', 'quill/src/action/diff_mappings.rs', 'quill/src/tiny_v2_diff.rs']),
     'C08': dict(
-        level='proof', verus=[], kani=['names'],
+        level='proof', verus=[], kani=['names'], enum=['maps'],
         technique=KANI_COMPLETE,
         claim='Complete (not bounded) Kani proofs on the real quill crate for N in {2,3,4} namespaces and all u8 name values: Names::reorder(table)[i] == self[table[i]] for every table; '
               'reorder by any permutation followed by its inverse is the identity; the identity permutation changes nothing; first_name fails exactly when the first namespace has no name. '
@@ -55,14 +55,30 @@ PROPERTIES = {
         note='Trusted: Verus+Z3; rustc -Zunpretty=expanded as the source of the verified text; arm lifting; sink model vw_write (Vec<u8> write_all appends big-endian bytes, never fails); vectors fit their count field.',
         out=['recursive attribute variants using this._len()', 'AttributeInfo::_read / _len, ClassFile::read (pool with long/double)', 'CpInfo, FieldInfo, MethodInfo writers']),
     'C09': dict(
-        level='proof', verus=[], kani=['merge'],
+        level='proof', verus=[], kani=['merge'], enum=['maps'],
         technique=KANI_COMPLETE,
         claim='Complete (loop-free, full-domain) Kani proofs on the real quill crate: merge_names places A\'s name in column a and B\'s in column b, absent where the side lacks the entry, refuses differing first names, and projects back to both inputs; '
               'merge_equal and merge_javadoc(_ab) are equality-or-error / present-iff-either. Partial: the key-union zip over IndexMap (zip_map_combination) and merge_namespaces are not under contract.',
         note='Trusted: Kani 0.68/CBMC; anyhow shim; merge_names instantiated at &JavaStr names from a 3-entry menu (the function only clones, compares and tests emptiness); Javadoc/T = u8.',
         out=['quill/src/action/diff_mappings.rs zip_map_combination (IndexMap)', 'merge_namespaces', 'Mappings::merge traversal']),
+    'C03': dict(
+        level='other', verus=[], kani=[], enum=['maps'],
+        technique=ENUM_TECH,
+        explanation='Bounded stand-in for the Tiny v2 reader/writer: all 1517 mapping sets of the stated universe (2-4 namespaces, missing names, inner class names, unicode names, empty/one-line/multi-line comments, parameters without source names), each rendered in two line orders.',
+        claim='Bounded (not proved): reading the text of a mapping set yields exactly the rendered entries (none lost, merged or re-parented), writing is independent of insertion order and sorted, an independent parser reads the written text back to the same set, write(read(write(M))) == write(M). '
+              'Not covered: sets only constructible through pub fields (top-level javadoc), inputs beyond the bound.',
+        note='Bounded stand-in, NOT a proof: the operation works on IndexMap<JavaString,..> trees through nested closures and text I/O (outside Verus; CBMC gave no verdict in 10 min on one IndexMap insertion chain), so the real code is run natively on every mapping set of a stated small universe and compared with a model-level oracle written from the property statement (kx/enum/maps.rs: own model, own Tiny v2 renderer/parser). Inputs beyond the bound are not covered.',
+        out=['quill/src/lines.rs WithMoreIdentIter on malformed indentation', 'inputs beyond the bound']),
+    'C10': dict(
+        level='other', verus=[], kani=[], enum=['maps'],
+        technique=ENUM_TECH,
+        explanation='Bounded stand-in for Mappings::remove_dummy: 3364 mapping sets mixing placeholder names (C_, net/minecraft/unmapped/C_, f_, m_, p_, <init>, <clinit>) and real names, with and without comments, at every nesting depth.',
+        claim='Bounded (not proved), mapping side only: remove_dummy deletes exactly the entries the documented rules name and returns every other entry unchanged, is idempotent, never removes an entry that still has a retained child. '
+              'Not covered: the diff-side filter insert_dummy_and_contract_inner_names.',
+        note='Bounded stand-in, NOT a proof: the operation works on IndexMap<JavaString,..> trees through nested closures and text I/O (outside Verus; CBMC gave no verdict in 10 min on one IndexMap insertion chain), so the real code is run natively on every mapping set of a stated small universe and compared with a model-level oracle written from the property statement (kx/enum/maps.rs: own model, own Tiny v2 renderer/parser). Inputs beyond the bound are not covered.',
+        out=['quill/src/action/insert_dummy.rs (diff-side filter)']),
     'C06': dict(
-        level='other', verus=[], kani=[], enum=['mapdesc'],
+        level='other', verus=[], kani=[], enum=['mapdesc', 'maps'],
         technique=ENUM_TECH,
         explanation='Bounded stand-in for map_desc / map_class: all 137 257 strings of length <= 6 over {L ; [ a b I (} and all valid class names <= 4 over {a b / $ x}, compared with an independent scanner.',
         claim='Bounded (not proved): map_desc replaces exactly the class names inside L...; and keeps every other byte (shape preserved), fails exactly on an unterminated L or on L;, never panics; map_class returns the mapped name or the unchanged name. '
@@ -70,7 +86,7 @@ PROPERTIES = {
         note='Bounded stand-in, NOT a proof: Kani needs >300 s and >14 GB for one descriptor of length 1 (measured) and Verus has no str/Chars support, so the real functions are run natively on every input up to the stated bound and compared with an independent oracle; inputs beyond the bound are not covered. Real anyhow, scratch copy of the crate.',
         out=['quill/src/remapper.rs remapper_b / BRemapperImpl::map_field_fail / map_method_fail (IndexMap, recursion over super classes)', 'X->Y->X identity']),
     'C11': dict(
-        level='other', verus=[], kani=[], enum=['inner'],
+        level='other', verus=[], kani=[], enum=['inner', 'maps'],
         technique=ENUM_TECH,
         explanation='Bounded stand-in for the inner-class split/join helpers: all valid object class names of length <= 7 over {a b $ /}; all pairs of names <= 3.',
         claim='Bounded (not proved): split_inner_class_parent_and_name is the last-$ split that refuses empty sides and package crossings; get_inner_class_name/parent agree with it; from_inner_class and split are mutually inverse. '
@@ -94,7 +110,7 @@ PROPERTIES = {
         note='Bounded stand-in, NOT a proof: Kani needs >300 s and >14 GB for one descriptor of length 1 (measured) and Verus has no str/Chars support, so the real functions are run natively on every input up to the stated bound and compared with an independent oracle; inputs beyond the bound are not covered. Real anyhow, scratch copy of the crate.',
         out=['strings longer than the bound', 'unicode names', 'signatures (check_valid accepts everything)']),
     'C16': dict(
-        level='proof', verus=['rlabels', 'cwrite', 'wjump', 'rskip', 'rbranch', 'rscan', 'rpool', 'adiff', 'scope', 'c20len'], kani=[], enum=['desc', 'mapdesc'],
+        level='proof', verus=['rlabels', 'cwrite', 'wjump', 'rskip', 'rbranch', 'rscan', 'rpool', 'rdecode', 'adiff', 'scope', 'c20len'], kani=[], enum=['desc', 'mapdesc'],
         technique=VERUS_TECH + ': implicit safety obligations (overflow, index, unwrap, unreachable, termination)',
         claim='Unbounded proof of panic-freedom and termination for every function extracted for the other properties (Verus generates no-overflow, in-bounds, no-failing-unwrap, unreachable!() unreachable, decreases obligations for each). '
               'Partial: text parsers built on Peekable<Chars>/BufRead are outside the verifier and not covered.',
@@ -110,10 +126,8 @@ PROPERTIES = {
 }
 
 NOT_APPLICABLE = {
-    'C03': 'text I/O through BufRead/fmt and four levels of &mut-capturing closures: outside the Verus subset, non-terminating in CBMC; no contract over str bytes is expressible with the installed verifiers',
     'C05': 'file-system scan + petgraph A* inside the binary crate; nothing on the path is free of I/O or external data structures that a contract could be attached to',
     'C07': 'whole-tree Mappable traversal + zip I/O; the property is a completeness statement over ~60 tree types that cannot be brought into a single-file Verus unit nor executed by CBMC',
-    'C10': 'keep-conditions are closures inside IndexMap::retain; the smallest bounded Kani instance on the real tree gave no verdict in 10 min (IndexMap/RandomState/JavaString)',
     'C12': 'as C03, plus directory tree I/O (walkdir)',
     'C14': 'string surgery on JavaString + IndexMap recursion + jar I/O; the claim relates two whole-program transformations',
     'C15': 'code lives in the binary crate (tokio/reqwest/zip dependency closure not compilable by Kani), predicates over IndexMap/IndexSet graphs',
